@@ -479,6 +479,10 @@ void bhkConstraint::Sync(NiStreamReversible& stream) {
 	entityRefs.SetSize(2);
 	entityRefs.Sync(stream);
 
+	// A constraint has exactly two entities, in memory as well and not only in what is written
+	if (stream.GetMode() == NiStreamReversible::Mode::Reading)
+		entityRefs.SetSize(2);
+
 	stream.Sync(priority);
 }
 
@@ -505,6 +509,11 @@ void ConstraintData::Sync(NiStreamReversible& stream) {
 	entityRefs.SetKeepEmptyRefs();
 	entityRefs.SetSize(2);
 	entityRefs.Sync(stream);
+
+	// A constraint has exactly two entities, in memory as well and not only in what is written
+	if (stream.GetMode() == NiStreamReversible::Mode::Reading)
+		entityRefs.SetSize(2);
+
 	stream.Sync(priority);
 
 	switch (type) {
